@@ -39,6 +39,8 @@ type Obligation struct {
 
 type Engine struct {
 	staticBinds  map[*ssa.Function]map[string]int
+	poisoned     map[int]string // regions of package-level variables whose initial value could not be computed
+	initErrors   []string
 	tier         string
 	curFrom      []string // proof hint of the assert being generated
 	templateMode bool     // replay: stop after building the entry state and evaluate the ensures over placeholders
@@ -590,7 +592,19 @@ func (e *Engine) initRegionZero(st *State, r *Region) {
 }
 
 // loadPath reads the value at (region,path) of static type t.
+func (e *Engine) poison(r *Region, why string) {
+	if e.poisoned == nil {
+		e.poisoned = map[int]string{}
+	}
+	if _, ok := e.poisoned[r.id]; !ok {
+		e.poisoned[r.id] = why
+	}
+}
+
 func (e *Engine) loadPath(st *State, r *Region, path []int, t types.Type) Value {
+	if why, bad := e.poisoned[r.id]; bad && !e.concrete {
+		e.fail("read of package-level state that is not modelled: %s", why)
+	}
 	if w, ok := e.windows[r.id]; ok {
 		if len(path) == 0 {
 			// whole-window load: element by element
